@@ -113,12 +113,15 @@ Definition judge (c : case) : bool :=
       match o_runs impl with
       | [] => true
       | _ :: _ => real_ok (mkEnv tm holders t self unreach ready2 msgs2) live (retryable_of pk) e 1 impl sig
+                  && indep_ok (mkEnv tm holders t self unreach ready2 msgs2) (retryable_of pk) e 1 impl
       end
   | Real _ _ _ => true
   | Fail keys tm m holders t self pk _ ready1 start1 e unreach bs ready2 msgs2 impl =>
       match o_runs impl with
       | [] => true                      (* the first attempt never ran: nothing failed *)
       | _ :: _ => spec_ok (mkEnv tm holders t self unreach ready2 msgs2) (retryable_of pk) e 1 impl
+                  (* whatever the excluded culprits send during the election and the replacement attempt *)
+                  && indep_ok (mkEnv tm holders t self unreach ready2 msgs2) (retryable_of pk) e 1 impl
       end
   | Silent keys tm m holders t self pk _ msgs1 unreach bs ready2 msgs2 _ impl =>
       match coordinator (key_of keys) holders with
